@@ -232,6 +232,11 @@ func (a *scramAuth) handleServerFirstResponse(fromServer []byte) ([]byte, error)
 
 // handleServerValidationMessage verifies the server's signature during the SCRAM authentication process.
 func (a *scramAuth) handleServerValidationMessage(fromServer []byte) ([]byte, error) {
+	// A server signature can only be valid for an exchange in which the server-first-message was
+	// processed. Without that state the expected value would be a public constant.
+	if len(a.saltedPwd) == 0 || len(a.authMessage) == 0 {
+		return nil, errors.New("server signature received before the server-first message")
+	}
 	serverSignature := fromServer[2:]
 	computedServerSignature := a.computeServerSignature()
 
